@@ -130,8 +130,42 @@ func (ex *Exec) builtin(st *State, name string, args []Val, in *ssa.Call) []Outc
 }
 
 // appendSlices: trusted contract of append(a, b...): a fresh backing array holding a then b.
+// poisonAliases: append(a, ...) may write into the backing array of a beyond len(a). Every
+// other live slice value that shares that backing array and is not a view of at most
+// len(a) elements from the same start may see its elements overwritten; the model (fresh
+// array per append) cannot express that, so such values are poisoned: reading one later
+// puts the function outside the verified subset instead of proving something unsound.
+func (ex *Exec) poisonAliases(st *State, a Slice) {
+	poison := func(v Val) (Val, bool) {
+		s, ok := v.(Slice)
+		if !ok || s.B != a.B {
+			return v, false
+		}
+		if s.Arr == a.Arr && (s.Len == a.Len || s.Len == "0") {
+			return v, false
+		}
+		return Opaque{Why: "slice sharing a backing array that a later append(alias[:n], ...) may have overwritten"}, true
+	}
+	for fr := st.Fr; fr != nil; fr = fr.Parent {
+		for k, v := range fr.Env {
+			if nv, ch := poison(v); ch {
+				fr.Env[k] = nv
+			}
+		}
+		for k, v := range fr.Names {
+			if nv, ch := poison(v); ch {
+				fr.Names[k] = nv
+			}
+		}
+	}
+	for o, c := range st.Mem {
+		st.Mem[o] = mapVal(c, poison)
+	}
+}
+
 func (ex *Exec) appendSlices(st *State, a, b Slice) Slice {
 	ex.UsedTrusted["builtin append"] = true
+	ex.poisonAliases(st, a)
 	if b.Len == "0" {
 		return Slice{Arr: a.Arr, Len: a.Len, Elem: a.Elem, B: ex.newBacking()}
 	}
@@ -792,9 +826,13 @@ func (ex *Exec) enterLoop(st *State, b *ssa.BasicBlock, prev *ssa.BasicBlock, or
 	// 2. write-set discovery (fixpoint over speculative passes)
 	wObjs := map[*Obj]bool{}
 	wKeys := map[string]bool{}
+	poisoned := map[ssa.Value]bool{}
 	for round := 0; round < 6; round++ {
 		spec := st.Clone()
 		ex.havocLoop(spec, b, wObjs, wKeys)
+		for k := range poisoned {
+			spec.Fr.Env[k] = Opaque{Why: "slice sharing a backing array that an append(alias[:n], ...) in an earlier iteration may have overwritten"}
+		}
 		spec.Fr.Loops[b] = &loopRec{Spec: true, Ordinal: ord}
 		ex.mute++
 		savedPaths := ex.paths
@@ -803,6 +841,17 @@ func (ex *Exec) enterLoop(st *State, b *ssa.BasicBlock, prev *ssa.BasicBlock, or
 		ex.paths = savedPaths
 		grew := false
 		for _, o := range outs {
+			// values poisoned by an aliasing append inside the body stay poisoned in the next iteration
+			if o.St.Fr != nil && o.St.Fr.Fn == fn {
+				for k, v := range o.St.Fr.Env {
+					if op, isOp := v.(Opaque); isOp && strings.HasPrefix(op.Why, "slice sharing") {
+						if _, was := st.Fr.Env[k].(Slice); was && !poisoned[k] {
+							poisoned[k] = true
+							grew = true
+						}
+					}
+				}
+			}
 			for obj, c := range o.St.Mem {
 				if oc, ok := spec.Mem[obj]; ok && !sameVal(oc, c) && !wObjs[obj] {
 					if _, existed := st.Mem[obj]; existed {
@@ -830,6 +879,9 @@ func (ex *Exec) enterLoop(st *State, b *ssa.BasicBlock, prev *ssa.BasicBlock, or
 	}
 	// 3. havoc, assume invariant
 	ex.havocLoop(st, b, wObjs, wKeys)
+	for k := range poisoned {
+		st.Fr.Env[k] = Opaque{Why: "slice sharing a backing array that an append(alias[:n], ...) in an earlier iteration may have overwritten"}
+	}
 	sc = ex.loopScope(st, b, ord)
 	for _, inv := range lc.Invariants {
 		t := ex.EvalBool(sc, inv)
@@ -881,6 +933,13 @@ func (ex *Exec) havocLoop(st *State, b *ssa.BasicBlock, wObjs map[*Obj]bool, wKe
 			break
 		}
 		v := ex.Fresh(st, phi.Type(), "loop_"+phi.Comment)
+		if nv, isSlice := v.(Slice); isSlice {
+			// the loop-carried slice may still share the backing array of its entry value
+			if ov, ok := st.Fr.Env[phi].(Slice); ok {
+				nv.B = ov.B
+				v = nv
+			}
+		}
 		if phi.Comment == "rangeindex" {
 			st.Assume(smt.Ge(v.(Int).T, "(- 1)"))
 		}
